@@ -68,17 +68,25 @@ end GoSup.Spec.C07
 namespace GoSup.Spec.C07
 
 inductive LEv where
-  | runInv (k : Nat) | runRet (k : Nat) | stopCall (k : Nat) | stopRet (k : Nat) | other
+  | runInv (k : Nat) | runRet (k : Nat) | stopCall (k : Nat)
+  | stopRet (k : Nat) (gap : Option Nat)   -- gap: ms between this return and the recording of Run()'s return
+                                           -- (0: recorded before; none: Run() never returned)
+  | other
   deriving DecidableEq, Repr
 
-/-- (1) a Stop() returns only after the Run() has returned (single-Run histories: every `stopRet` is
-preceded by the `runRet`); (2) once a Run() was invoked, Run() and every Stop() return -/
+/-- scheduling slack between `done()` inside Run() and the recording of Run()'s return by its caller -/
+def slackMs : Nat := 250
+
+/-- (1) a Stop() returns only after the Run() has returned: by the time a Stop() returned the Run() had executed
+its deferred `done()`, so its return is recorded at most a scheduling delay later — not hundreds of
+milliseconds later, and not never; (2) once a Run() was invoked, Run() and every Stop() return -/
 def liftHolds (hung : Bool) (t : List LEv) : Bool :=
   let ranAtAll := t.any fun e => match e with | .runInv _ => true | _ => false
   (!ranAtAll || !hung)
-  && (!ranAtAll || (List.range t.length).all fun j =>
-      match t[j]? with
-      | some (.stopRet _) => (t.take j).any fun e => match e with | .runRet _ => true | _ => false
+  && (!ranAtAll || t.all fun e =>
+      match e with
+      | .stopRet _ (some g) => g ≤ slackMs
+      | .stopRet _ none => false
       | _ => true)
 
 end GoSup.Spec.C07
